@@ -77,25 +77,62 @@ class Arr:
         return iter(self.v)
 
     def __getitem__(self, i):
-        if isinstance(i, Arr):
-            # boolean mask (numpy fancy indexing): every symbolic mask entry forks
-            if len(i.v) != len(self.v):
-                raise core.emulated(IndexError("boolean index did not match indexed array"))
-            if all(isinstance(m, (bool, SymBool)) for m in i.v):
-                return Arr([x for x, m in zip(self.v, i.v) if (m if isinstance(m, bool) else bool(m))], self.dtype)
-            return Arr([self.v[int(k)] for k in i.v], self.dtype)
-        if isinstance(i, (list, tuple)):
-            return Arr([self.v[int(k)] for k in i], self.dtype)
+        idx = self._index_list(i)  # fancy indexing (positions or boolean mask; every symbolic mask entry forks)
+        if idx is not None:
+            return Arr([self.v[k] for k in idx], self.dtype)
         if isinstance(i, slice):
             return Arr(self.v[i], self.dtype)
         if isinstance(i, SymInt):
             i = i.__index__()
         return self.v[i]
 
-    def __setitem__(self, i, x):
+    def _cast(self, x):
         if self.dtype is int and not isinstance(x, (int, SymInt)):
-            x = core.to_int_trunc(x) if is_sym(x) else int(x)  # numpy truncates on assignment into an integer array
-        self.v[i] = x
+            return core.to_int_trunc(x) if is_sym(x) else int(x)  # numpy truncates on assignment into an integer array
+        if self.dtype is float and isinstance(x, int) and not isinstance(x, bool):
+            return float(x)
+        return x
+
+    def _index_list(self, i):
+        """positions addressed by a fancy index (Arr / list of ints or booleans), None for a plain index"""
+        if isinstance(i, Arr):
+            i = i.v
+        elif isinstance(i, _real_np.ndarray):
+            i = i.tolist()
+        elif not isinstance(i, (list, tuple)):
+            return None
+        i = list(i)
+        if i and all(isinstance(m, (bool, SymBool, _real_np.bool_)) for m in i):
+            if len(i) != len(self.v):
+                raise core.emulated(IndexError("boolean index did not match indexed array"))
+            return [k for k, m in enumerate(i) if (bool(m))]
+        out = []
+        for k in i:
+            k = k.__index__() if isinstance(k, SymInt) else int(k)
+            if not -len(self.v) <= k < len(self.v):
+                raise core.emulated(IndexError(f"index {k} is out of bounds for axis 0 with size {len(self.v)}"))
+            out.append(k)
+        return out
+
+    def __setitem__(self, i, x):
+        idx = self._index_list(i)
+        if idx is None and isinstance(i, slice):
+            idx = list(range(len(self.v)))[i]
+        if idx is not None:
+            if isinstance(x, (Arr, list, tuple, _real_np.ndarray)):
+                xs = list(x.v if isinstance(x, Arr) else x)
+                if len(xs) == 1:
+                    xs = xs * len(idx)
+                if len(xs) != len(idx):
+                    raise core.emulated(ValueError(f"shape mismatch: value array of shape ({len(xs)},) could not be broadcast to indexing result of shape ({len(idx)},)"))
+            else:
+                xs = [x] * len(idx)
+            for k, val in zip(idx, xs):
+                self.v[k] = self._cast(val)
+            return
+        if isinstance(i, SymInt):
+            i = i.__index__()
+        self.v[i] = self._cast(x)
 
     @property
     def shape(self):
@@ -184,8 +221,76 @@ class Arr:
 
     __hash__ = None
 
-    def sum(self):
+    def sum(self, axis=None):
         return sum_(self.v)
+
+    def __neg__(self):
+        return Arr([-a for a in self.v], self.dtype)
+
+    def __abs__(self):
+        return Arr([abs(a) for a in self.v], self.dtype)
+
+    def __pow__(self, k):
+        return Arr([a ** k for a in self.v], self.dtype)
+
+    def __bool__(self):
+        if len(self.v) == 1:
+            return bool(_truth(self.v[0]))
+        raise core.emulated(ValueError("The truth value of an array with more than one element is ambiguous. Use a.any() or a.all()"))
+
+    def __invert__(self):
+        return Arr([(not a) if isinstance(a, bool) else ~a for a in self.v], self.dtype)
+
+    def __and__(self, o):
+        return self._ew(o, lambda a, b: core.And(a, b))
+
+    def __or__(self, o):
+        return self._ew(o, lambda a, b: core.Or(a, b))
+
+    @property
+    def size(self):
+        return len(self.v)
+
+    ndim = 1
+
+    def copy(self):
+        return Arr(self.v, self.dtype)
+
+    def astype(self, t):
+        return asarray(list(self.v), dtype=t if t in (int, float) else None) if t in (int, float) else Arr(self.v, self.dtype)
+
+    def all(self):
+        return all_(self)
+
+    def any(self):
+        return any_(self)
+
+    def max(self):
+        return max_(self)
+
+    def min(self):
+        return min_(self)
+
+    def argmax(self):
+        return argmax(self)
+
+    def argmin(self):
+        return argmin(self)
+
+    def cumsum(self):
+        return cumsum(self)
+
+    def mean(self):
+        return mean(self)
+
+    def prod(self):
+        return prod(self)
+
+    def nonzero(self):
+        return (flatnonzero(self),)
+
+    def fill(self, x):
+        self.v = [self._cast(x)] * len(self.v)
 
     def __repr__(self):
         return f"Arr({self.v})"
@@ -370,7 +475,11 @@ def sqrt(x):
 
 
 def round_(x, n=0):
+    if isinstance(x, (Arr, list, tuple)):
+        return Arr([round_(v, n) for v in _items(x)])
     if is_number(x):
+        return round(x, n)
+    if isinstance(x, SymReal):
         return round(x, n)
     return x
 
@@ -381,8 +490,250 @@ def isclose(a, b, rtol=1e-05, atol=1e-08):
     return r
 
 
-def zeros(n):
-    return _real_np.zeros(n)
+def _n(n):
+    if isinstance(n, (tuple, list)):
+        if len(n) != 1:
+            raise core.Unsupported("multi-dimensional arrays are not modelled by the shim")
+        n = n[0]
+    return n.__index__() if isinstance(n, SymInt) else int(n)
+
+
+def zeros(n, dtype=float):
+    dt = int if dtype is int else float
+    return Arr([0 if dt is int else 0.0] * _n(n), dt)
+
+
+def ones(n, dtype=float):
+    dt = int if dtype is int else float
+    return Arr([1 if dt is int else 1.0] * _n(n), dt)
+
+
+def full(n, x, dtype=None):
+    return Arr([x] * _n(n), int if dtype is int else float)
+
+
+def zeros_like(a, dtype=None):
+    return zeros(len(asarray(a)), dtype if dtype is not None else asarray(a).dtype)
+
+
+def ones_like(a, dtype=None):
+    return ones(len(asarray(a)), dtype if dtype is not None else asarray(a).dtype)
+
+
+def full_like(a, x, dtype=None):
+    return full(len(asarray(a)), x, dtype)
+
+
+def empty(n, dtype=float):
+    return zeros(n, dtype)
+
+
+def arange(*a):
+    return Arr(list(range(*[_n(x) for x in a])), int)
+
+
+def _items(a):
+    if isinstance(a, Arr):
+        return list(a.v)
+    if isinstance(a, _real_np.ndarray):
+        return a.tolist()
+    if isinstance(a, (list, tuple, range)):
+        return list(a)
+    return [a]
+
+
+def cumsum(a):
+    out, t = [], None
+    for x in _items(a):
+        t = x if t is None else t + x
+        out.append(t)
+    return Arr(out, asarray(list(_items(a))).dtype if len(out) else float)
+
+
+def prod(a):
+    t = 1.0
+    for x in _items(a):
+        t = t * x
+    return t
+
+
+def mean(a):
+    xs = _items(a)
+    return _div(sum_(xs), len(xs))
+
+
+def _pick(xs, better):
+    """index of the extreme element; comparisons on symbolic values fork (first extreme wins, as numpy)"""
+    if not xs:
+        raise core.emulated(ValueError("attempt to get argmax of an empty sequence"))
+    b = 0
+    for k in range(1, len(xs)):
+        if xs[k] is NAN or xs[b] is NAN:
+            raise core.Unsupported("extreme of an array containing nan")
+        if better(xs[k], xs[b]):
+            b = k
+    return b
+
+
+def argmax(a):
+    return _pick(_items(a), lambda x, y: x > y)
+
+
+def argmin(a):
+    return _pick(_items(a), lambda x, y: x < y)
+
+
+def max_(a, *more):
+    if more:
+        raise core.Unsupported("np.max with axis")
+    xs = _items(a)
+    return xs[argmax(xs)]
+
+
+def min_(a, *more):
+    if more:
+        raise core.Unsupported("np.min with axis")
+    xs = _items(a)
+    return xs[argmin(xs)]
+
+
+def abs_(a):
+    if isinstance(a, (Arr, list, tuple, _real_np.ndarray)):
+        return Arr([abs(x) for x in _items(a)])
+    return abs(a)
+
+
+def maximum(a, b):
+    f = lambda x, y: x if not is_sym(x) and not is_sym(y) and x >= y else (y if not is_sym(x) and not is_sym(y) else core.Ite(x >= y, x, y))
+    if isinstance(a, (Arr, list, tuple)) or isinstance(b, (Arr, list, tuple)):
+        A = asarray(a) if isinstance(a, (Arr, list, tuple)) else asarray([a])
+        return A._ew(b if not isinstance(b, (list, tuple)) else list(b), f)
+    return f(a, b)
+
+
+def minimum(a, b):
+    f = lambda x, y: x if not is_sym(x) and not is_sym(y) and x <= y else (y if not is_sym(x) and not is_sym(y) else core.Ite(x <= y, x, y))
+    if isinstance(a, (Arr, list, tuple)) or isinstance(b, (Arr, list, tuple)):
+        A = asarray(a) if isinstance(a, (Arr, list, tuple)) else asarray([a])
+        return A._ew(b if not isinstance(b, (list, tuple)) else list(b), f)
+    return f(a, b)
+
+
+def clip(a, lo, hi):
+    r = a
+    if lo is not None:
+        r = maximum(r, lo)
+    if hi is not None:
+        r = minimum(r, hi)
+    return r
+
+
+def where(cond, *xy):
+    if not xy:
+        return (flatnonzero(cond),)
+    x, y = xy
+    cs = _items(cond)
+    xs = _items(x) if isinstance(x, (Arr, list, tuple, _real_np.ndarray)) else [x] * len(cs)
+    ys = _items(y) if isinstance(y, (Arr, list, tuple, _real_np.ndarray)) else [y] * len(cs)
+    out = []
+    for c, a, b in zip(cs, xs, ys):
+        t = _truth(c)
+        out.append(a if (t is True or (not isinstance(t, SymBool) and bool(t))) else (b if not isinstance(t, SymBool) else (a if bool(t) else b)))
+    return Arr(out)
+
+
+def flatnonzero(a):
+    return Arr([k for k, x in enumerate(_items(a)) if bool(_truth(x))], int)
+
+
+def count_nonzero(a):
+    return len(flatnonzero(a))
+
+
+def isnan(a):
+    if isinstance(a, (Arr, list, tuple, _real_np.ndarray)):
+        return Arr([isnan(x) for x in _items(a)])
+    if a is NAN:
+        return True
+    if is_sym(a):
+        return False
+    return a != a
+
+
+def isfinite(a):
+    if isinstance(a, (Arr, list, tuple, _real_np.ndarray)):
+        return Arr([isfinite(x) for x in _items(a)])
+    if a is NAN:
+        return False
+    if is_sym(a):
+        return True
+    return math.isfinite(a)
+
+
+def concatenate(arrs, axis=0):
+    out = []
+    for a in arrs:
+        out.extend(_items(a))
+    return asarray(out)
+
+
+def append(a, x):
+    return asarray(_items(a) + _items(x))
+
+
+def dot(a, b):
+    xs, ys = _items(a), _items(b)
+    if len(xs) != len(ys):
+        raise core.emulated(ValueError(f"shapes ({len(xs)},) and ({len(ys)},) not aligned"))
+    return sum_([x * y for x, y in zip(xs, ys)])
+
+
+def array_equal(a, b):
+    xs, ys = _items(a), _items(b)
+    if len(xs) != len(ys):
+        return False
+    return core.And(*[x == y for x, y in zip(xs, ys)]) if xs else True
+
+
+def allclose(a, b, rtol=1e-05, atol=1e-08):
+    xs, ys = _items(a), _items(b)
+    if len(ys) == 1:
+        ys = ys * len(xs)
+    if len(xs) == 1:
+        xs = xs * len(ys)
+    return core.And(*[isclose(x, y, rtol, atol) for x, y in zip(xs, ys)]) if xs else True
+
+
+def searchsorted(a, v, side="left"):
+    xs = _items(a)
+    for k, x in enumerate(xs):
+        if (v <= x) if side == "left" else (v < x):
+            return k
+    return len(xs)
+
+
+def float64(x=0.0):
+    if is_sym(x) or x is NAN:
+        return x
+    return F64(float(x))
+
+
+def copy_(a):
+    return asarray(_items(a)) if not isinstance(a, Arr) else a.copy()
+
+
+def sort(a):
+    xs = _items(a)
+    if any(is_sym(x) for x in xs):
+        raise core.Unsupported("np.sort of symbolic values")
+    return asarray(sorted(xs))
+
+
+def argsort(a):
+    xs = _items(a)
+    if any(is_sym(x) for x in xs):
+        raise core.Unsupported("np.argsort of symbolic values")
+    return Arr(sorted(range(len(xs)), key=lambda k: xs[k]), int)
 
 
 GLOBAL_RANDOM_HOOK = [None]  # harnesses install a SymRng here; its use means "the library drew from numpy's global state"
@@ -431,6 +782,49 @@ class Shim:
     sqrt = staticmethod(sqrt)
     round = staticmethod(round_)
     zeros = staticmethod(zeros)
+    ones = staticmethod(ones)
+    full = staticmethod(full)
+    empty = staticmethod(empty)
+    zeros_like = staticmethod(zeros_like)
+    ones_like = staticmethod(ones_like)
+    full_like = staticmethod(full_like)
+    arange = staticmethod(arange)
+    cumsum = staticmethod(cumsum)
+    prod = staticmethod(prod)
+    mean = staticmethod(mean)
+    average = staticmethod(mean)
+    argmax = staticmethod(argmax)
+    argmin = staticmethod(argmin)
+    max = staticmethod(max_)
+    min = staticmethod(min_)
+    amax = staticmethod(max_)
+    amin = staticmethod(min_)
+    abs = staticmethod(abs_)
+    absolute = staticmethod(abs_)
+    fabs = staticmethod(abs_)
+    maximum = staticmethod(maximum)
+    minimum = staticmethod(minimum)
+    clip = staticmethod(clip)
+    where = staticmethod(where)
+    flatnonzero = staticmethod(flatnonzero)
+    nonzero = staticmethod(lambda a: (flatnonzero(a),))
+    count_nonzero = staticmethod(count_nonzero)
+    isnan = staticmethod(isnan)
+    isfinite = staticmethod(isfinite)
+    concatenate = staticmethod(concatenate)
+    hstack = staticmethod(concatenate)
+    append = staticmethod(append)
+    dot = staticmethod(dot)
+    array_equal = staticmethod(array_equal)
+    allclose = staticmethod(allclose)
+    searchsorted = staticmethod(searchsorted)
+    float64 = staticmethod(float64)
+    float_ = staticmethod(float64)
+    copy = staticmethod(copy_)
+    sort = staticmethod(sort)
+    argsort = staticmethod(argsort)
+    nan = NAN
+    bool_ = bool
     isclose = staticmethod(isclose)
     inf = inf
     pi = pi
